@@ -178,6 +178,30 @@ def run(chk):
         ev += [("delete-user", r.status), ("GET by the deleted account", gone.status, gone.code)]
         if r.status == 200 and gone.status == 200:
             chk.fail("c17:deleted-account-still-works", "a deleted account is still served: %s" % ev, {"events": ev})
+        # an update of an account the gateway has not looked up since it started (nothing of it is cached): the account keeps every
+        # attribute the update does not name
+        root.req("PATCH", "/create-user", body=admin_xml("ub", "sb1", "admin", 1700, 1800))
+        g.restart(); root = s3c.Client(g.port, "root", "rootsecret")
+        r = root.req("PATCH", "/update-user", query={"access": "ub"}, body=b"<MutableProps><Secret>sb2</Secret></MutableProps>")
+        ub = s3c.Client(g.port, "ub", "sb2")
+        la = ub.req("PATCH", "/list-users"); pu = ub.req("PUT", "/bk1/by-ub", body=b"z")
+        stb = os.stat(os.path.join(site.root, "bk1", "by-ub")) if pu.status == 200 else None
+        ev += [("restart, then update-user ub secret", r.status), ("list-users by ub (admin role) with the new secret", la.status, la.code), ("PUT by ub", pu.status, (stb.st_uid, stb.st_gid) if stb else None)]
+        chk.case(("history", "update-uncached-secret"), True); chk.traces += 1
+        if r.status == 200 and (la.status != 200 or pu.status != 200 or (stb.st_uid, stb.st_gid) != (1700, 1800)):
+            chk.fail("c17:update-of-uncached-account", "after a restart update-user changed the secret of the admin account ub (uid 1700, gid 1800): list-users by ub answers %d %s, its PUT %d, the file is owned by %s" % (
+                la.status, la.code, pu.status, (stb.st_uid, stb.st_gid) if stb else None), {"events": ev[-3:]})
+        g.restart(); root = s3c.Client(g.port, "root", "rootsecret")
+        r = root.req("PATCH", "/update-user", query={"access": "ub"}, body=b"<MutableProps><UserID>1900</UserID></MutableProps>")
+        ub = s3c.Client(g.port, "ub", "sb2")
+        pu = ub.req("PUT", "/bk1/by-ub2", body=b"z"); la = ub.req("PATCH", "/list-users")
+        stb = os.stat(os.path.join(site.root, "bk1", "by-ub2")) if pu.status == 200 else None
+        ev += [("restart, then update-user ub UserID", r.status), ("PUT by ub", pu.status, (stb.st_uid, stb.st_gid) if stb else None), ("list-users by ub", la.status)]
+        chk.case(("history", "update-uncached-uid"), True); chk.traces += 1
+        if r.status == 200 and (pu.status != 200 or la.status != 200 or (stb.st_uid, stb.st_gid) != (1900, 1800)):
+            chk.fail("c17:update-of-uncached-account", "after a restart update-user changed the uid of ub to 1900: its PUT (unchanged secret) answers %d %s, list-users %d, the file is owned by %s" % (
+                pu.status, pu.code, la.status, (stb.st_uid, stb.st_gid) if stb else None), {"events": ev[-3:]})
+        root.req("PATCH", "/delete-user", query={"access": "ub"})
         # concurrent admin mutations through one gateway: none lost, store stays parseable
         import threading
         def mk(i):
@@ -199,6 +223,7 @@ def run(chk):
         chk.samples.append({"admin_api_history": [list(map(str, e)) for e in ev]})
         chk.tie("gateway still running after the admin history", g.alive(), g.log_tail())
 
+    prune_schedule(chk, gwbin)
     s3_object_store(chk, gwbin)
     if not built:
         return
@@ -223,6 +248,44 @@ def run(chk):
         key = "c17:lookup-in-flight-during-delete" if m["schedule"].startswith("inflight") else "c17:deleted-account-served:" + m["schedule"]
         chk.fail(key, "schedule %s: after delete-user returned, a lookup still answers %s" % (m["schedule"], m["final_lookup"]), m)
 
+
+
+def prune_schedule(chk, gwbin):
+    """the periodic prune of the account cache parked at the end of its scan (yield point iamcache.gc.scanned) while delete-user /
+    update-user run: once they are acknowledged the cache shows their effect, whatever the prune does afterwards"""
+    import threading
+    from vlib import hooks
+    with gw.Site({"iam": True}, name="c17g") as site:
+        hk = hooks.Hooks(site.base)
+        g = site.gateway(gwbin, extra_env=hk.env(), global_args=["--iam-cache-prune", "1"])
+        root = s3c.Client(g.port, "root", "rootsecret")
+        chk.require(root.req("PUT", "/bk1").status == 200, "c17:setup", "CreateBucket failed")
+        for what in ("delete", "update"):
+            acc = "gc" + what
+            root.req("PATCH", "/create-user", body=admin_xml(acc, "s1", "admin", 0, 0))
+            first = s3c.Client(g.port, acc, "s1").req("PATCH", "/list-users")        # (the account is in the cache now)
+            hk.hold("iamcache.gc.scanned")
+            parked = hk.wait_at("iamcache.gc.scanned", 4.0)
+            res = {}
+            def mutate():
+                if what == "delete": res["r"] = root.req("PATCH", "/delete-user", query={"access": acc}, timeout=20)
+                else: res["r"] = root.req("PATCH", "/update-user", query={"access": acc}, body=b"<MutableProps><Secret>s2</Secret></MutableProps>", timeout=20)
+            t = threading.Thread(target=mutate); t.start(); t.join(1.5)       # (the unchanged code holds the cache's lock while parked: the mutation waits)
+            waited = t.is_alive()
+            hk.release("iamcache.gc.scanned"); hk.clear(); t.join(20)
+            import time as _t; _t.sleep(0.3)
+            after_old = s3c.Client(g.port, acc, "s1").req("PATCH", "/list-users")
+            after_new = s3c.Client(g.port, acc, "s2").req("PATCH", "/list-users") if what == "update" else None
+            r = res.get("r")
+            row = {"mutation": what, "prune_parked": parked, "mutation_waited_for_the_prune": waited, "mutation_status": r.status if r is not None else None, "first_use": first.status,
+                   "old_secret_after": after_old.status, "new_secret_after": after_new.status if after_new is not None else None}
+            chk.case(("prune-schedule", what), parked); chk.traces += 1; chk.count("prune-schedule:%s:%s" % (what, "parked" if parked else "not-parked"))
+            if not parked:
+                chk.tie("the prune of the account cache reaches its yield point within 4 s (--iam-cache-prune 1)", False, row); continue
+            if r is not None and r.status == 200 and (after_old.status == 200 or (after_new is not None and after_new.status != 200)):
+                chk.fail("c17:mutation-lost-to-cache-prune:" + what, "%s-user of a cached account acknowledged while a prune of the cache was between its scan and its end: afterwards the old secret answers %d%s" % (
+                    what, after_old.status, "" if after_new is None else ", the new secret %d" % after_new.status), row)
+        chk.tie("gateway still running after the prune schedules", g.alive(), g.log_tail())
 
 
 class Relay:
